@@ -56,6 +56,7 @@ type SrvOpt struct {
 	// host names) is the one a real hopserver.NewHopServer derives from an equivalent server configuration with
 	// per-name keys only; the transport server itself still runs on the simulated wire.
 	ViaHopServer bool
+	HSTimeout    time.Duration // server handshake timeout (default 30 s)
 }
 
 // NewServer starts a real server.
@@ -65,6 +66,9 @@ func (w *World) NewServer(addr *net.UDPAddr, o SrvOpt) *Srv {
 		KeyPair: o.Ident.Key, KEMKeyPair: o.KEM, Certificate: o.Ident.Leaf, Intermediate: o.Ident.Inter,
 		HandshakeTimeout: 30 * time.Second, ClientVerify: o.ClientVerify, IsHidden: o.Hidden,
 		MaxPendingConnections: o.MaxPending, MaxBufferedPacketsPerConnection: o.MaxBuffered,
+	}
+	if o.HSTimeout > 0 {
+		cfg.HandshakeTimeout = o.HSTimeout
 	}
 	if len(o.Extra) > 0 {
 		cfg.GetCertificate, cfg.GetCertList = vhostCallbacks(o)
